@@ -613,6 +613,12 @@ def history_c09(rng):
         src0 = ({"op": "build", "spec": gen_spec(rng, rng.choice(["abs", "abs", "rich", None]))}
                 if rng.random() < 0.8 else gen_source(rng, rid=0, p_build=0.0, fmts=["dfxp", "sami", "scc"]))
         kind = rng.choice(["dfxp", "sami", "single", "vtt", "dfxp", "sami"])
+        if src0["op"] == "build" and rng.random() < 0.35:
+            # a set EVERY writer must refuse (a caption time no writer can print), with positioning at every level
+            src0 = {"op": "build", "spec": gen_spec(rng, "rich")}
+            caps = [c for lg in src0["spec"]["langs"] for c in lg["caps"] if "same_as" not in c]
+            rng.choice(caps)["end"] = rng.choice([float("inf"), float("nan"), 10 ** 21, float("inf")])
+            kind = rng.choice(WRITER_KINDS)
         variants = [{"video_width": w_, "video_height": h_} for (w_, h_) in set(VIDEO_SIZES)] + \
                    [{}, {"relativize": False}, {"fit_to_screen": False, "video_width": 640, "video_height": 360}]
         rng.shuffle(variants)
